@@ -1,7 +1,7 @@
 (* Request/response interface of the executable model: one S-expression in,
    one out.  Shared by the extracted runner and the in-Coq path. *)
 From InfluxQL Require Import Base.Prelude Base.Sexp Base.Oracles Lex.Token Lex.Reader Lex.Scanner Ast.Ast Ast.SexpAst
-  Val.Duration Parse.ExprTree Parse.Instr Parse.ParseExpr Parse.ParseStmts Ast.Printer Ast.PrinterStmts Parse.Params Ast.Privileges Ast.ColumnNames Sem.Eval Sem.Reduce Sem.Condition.
+  Val.Duration Parse.ExprTree Parse.Instr Parse.ParseExpr Parse.ParseStmts Ast.Printer Ast.PrinterStmts Parse.Params Ast.Privileges Ast.ColumnNames Sem.Eval Sem.Reduce Sem.Condition Ast.Clone.
 
 Definition bad_request : sexp := L [A (-1)].
 
@@ -197,6 +197,26 @@ Definition dispatch1 (orc : oracles) (req : sexp) : sexp :=
               | None => L [A 1]
               end
           | _, _ => bad_request
+          end
+      | 19%nat, [q] =>
+          match sd_select q with
+          | Some q' =>
+              let '(orig, n) := annot_select q' 0 in
+              let '(cl, _) := clone_lselect orig n in
+              let shared (ol : list loc) (l : loc) := se_bool (existsb (Z.eqb l) ol) in
+              L [se_select (erase_lselect cl); L (map (shared (locs_lselect orig)) (locs_lselect cl));
+                 L (map (shared (rx_lselect orig)) (rx_lselect cl))]
+          | None => bad_request
+          end
+      | 20%nat, [e] =>
+          match sd_expr e with
+          | Some e' =>
+              let '(orig, n) := annot_expr e' 0 in
+              let '(cl, _) := clone_lexpr orig n in
+              let shared (ol : list loc) (l : loc) := se_bool (existsb (Z.eqb l) ol) in
+              L [se_expr (erase_lexpr cl); L (map (shared (locs_lexpr orig)) (locs_lexpr cl));
+                 L (map (shared (rx_lexpr orig)) (rx_lexpr cl))]
+          | None => bad_request
           end
       | 12%nat, [e] => match sd_expr e with Some e' => se_text (print_expr orc e') | None => bad_request end
       | _, _ => bad_request
